@@ -537,7 +537,21 @@ def mon_peer_protocol(run):
     return bad[:3]
 
 
+def mon_ptr(run):
+    """C04: the encoding branch `KanalPtr::{read,write,copy}` took is the one the byte model takes for
+    that size: zero-sized -> zst, size <= pointer size (8) -> inline, larger -> indirect."""
+    bad = []
+    for i, (tid, kind, args) in enumerate(run.events):
+        if kind in ("pread", "pwrite", "pcopy"):
+            branch, size = args[1], int(args[2])
+            want = "zst" if size == 0 else ("indirect" if size > 8 else "inline")
+            if branch != want:
+                bad.append(f"event {i}: {kind} of a {size}-byte type took the {branch} branch, the model takes {want}")
+    return bad[:3]
+
+
 ALL_MONITORS = {
+    "ptr": lambda run, ctx: mon_ptr(run),
     "orderings": lambda run, ctx: mon_orderings(run, ctx["ords"]),
     "peerproto": lambda run, ctx: mon_peer_protocol(run),
     "disconnect": lambda run, ctx: mon_disconnect(run),
